@@ -78,7 +78,12 @@ fn main() {
 
 fn dispatch(id: &str, ra: RunArgs) -> i32 {
     match id {
-        "C34" => run_check(checks::c34::C34, ra),
+        "C34" => run_check(checks::c34::C34("C34"), ra),
+        // configuration clause of C12 (lease window vs election timeout), auxiliary engine of ./check C12
+        "C12cfg" => {
+            unsafe { std::env::set_var("VERIF_EVIDENCE_SUFFIX", ".config") };
+            run_check(checks::c34::C34("C12"), ra)
+        }
         "C07" => run_check(checks::c07::C07, ra),
         "C08" => run_check(checks::c08::C08, ra),
         "C19" => run_check(checks::c19::C19, ra),
